@@ -161,3 +161,119 @@ func runDuplexTier(t *testing.T, rep *kit.Report, env kit.Env) {
 	}
 	rep.Add(evals, nontrivial, 0, transitions)
 }
+
+// (e) failed key setups on a live session: a key exchange that fails (a
+// key-exchange answer nobody asked for, a low-order public key) must leave keys
+// AND counters as they are - otherwise numbers repeat under the old key.
+func runFailedSetupTier(t *testing.T, rep *kit.Report, env kit.Env) {
+	L := 4
+	if env.Thorough() {
+		L = 5
+	}
+	events := []string{"AR", "AP", "BR", "BP", "A:answer-nobody-asked-for", "A:low-order-key-as-server", "B:low-order-key-as-server", "A:wrong-kx-type"}
+	total := 1
+	for i := 0; i < L; i++ {
+		total *= len(events)
+	}
+	var evals, nontrivial, transitions int64
+	caseNo := 0
+	for _, role := range []bool{false, true} {
+		for code := 0; code < total; code++ {
+			caseNo++
+			if !env.Mine(caseNo) {
+				continue
+			}
+			a, _ := kit.NewNode(kit.NodeOpts{Name: "A", ID: pool[0], StateOnly: true})
+			b, _ := kit.NewNode(kit.NodeOpts{Name: "B", ID: pool[1], StateOnly: true})
+			var err error
+			if role {
+				err = kit.KeySessions(b, a)
+			} else {
+				err = kit.KeySessions(a, b)
+			}
+			if err != nil {
+				panic(err)
+			}
+			sa := a.State().GetSession(pool[1].IP)
+			sb := b.State().GetSession(pool[0].IP)
+			ha := &state.EncryptionSessionTestHelper{EncryptionSession: sa.Encryption()}
+			hb := &state.EncryptionSessionTestHelper{EncryptionSession: sb.Encryption()}
+			var evs []string
+			c := code
+			hasFail := false
+			for i := 0; i < L; i++ {
+				e := events[c%len(events)]
+				c /= len(events)
+				evs = append(evs, e)
+				if len(e) > 2 {
+					hasFail = true
+				}
+			}
+			desc := fmt.Sprintf("events %v, A was key-exchange client=%v", evs, !role)
+			seen := map[string]int{}
+			good := make([]byte, 32)
+			good[0] = 9
+			for i, e := range evs {
+				transitions++
+				if len(e) > 2 {
+					enc := sa.Encryption()
+					if e[0] == 'B' {
+						enc = sb.Encryption()
+					}
+					var ferr error
+					switch e[2:] {
+					case "answer-nobody-asked-for":
+						// a late duplicate of a key-exchange answer: the exchange it belonged to
+						// was completed and cleaned up (as every completed setup does).
+						enc.InitCleanup()
+						ferr = enc.InitKeyClientComplete(good, "ECDH-X25519/BLAKE3")
+					case "low-order-key-as-server":
+						_, _, ferr = enc.InitKeyServer(make([]byte, 32), "ECDH-X25519/BLAKE3")
+					case "wrong-kx-type":
+						_, _, ferr = enc.InitKeyServer(good, "nope")
+					}
+					if ferr == nil {
+						rep.Outcome("failed-setup/unexpectedly-succeeded:" + e[2:])
+					}
+					continue
+				}
+				src, dst, ss, ds, hs := a, b, sa, sb, ha
+				sip, dip := pool[0].IP, pool[1].IP
+				if e[0] == 'B' {
+					src, dst, ss, ds, hs = b, a, sb, sa, hb
+					sip, dip = dip, sip
+				}
+				mt := frame.NetworkTraffic
+				if e[1] == 'P' {
+					mt = frame.RouterCtrl
+				}
+				f, err := src.FrameBuilder().NewFrameV1(sip, dip, mt, nil, []byte(fmt.Sprintf("fs-%d", i)), nil)
+				if err != nil {
+					panic(err)
+				}
+				if err := f.Seal(ss); err != nil {
+					rep.Violate("failed-setup/seal-failed", fmt.Sprintf("event %d (%s): Seal failed: %v; %s", i, e, err, desc), map[string]any{"events": evs, "role": role})
+					f.ReturnToPool()
+					break
+				}
+				id := fmt.Sprintf("%c/%c/%s/%d", e[0], e[1], kit.Hash(hs.OutKey()), f.SequenceNum())
+				if j, dup := seen[id]; dup {
+					rep.Violate("failed-setup/sequence-number-reused", fmt.Sprintf("event %d (%s) reuses sequence number %d of event %d under the same key and class; %s", i, e, f.SequenceNum(), j, desc), map[string]any{"events": evs, "role": role})
+				}
+				seen[id] = i
+				d, _ := f.FrameDataWithMargins(0, 0)
+				wire := append([]byte(nil), d...)
+				f.ReturnToPool()
+				if err := unsealAt(dst, ds, wire); err != nil {
+					rep.Violate("failed-setup/in-order-rejected", fmt.Sprintf("event %d (%s) delivered at once does not unseal: %v; %s", i, e, err, desc), map[string]any{"events": evs, "role": role})
+				}
+			}
+			evals++
+			if hasFail {
+				nontrivial++
+			}
+		}
+	}
+	rep.Add(evals, nontrivial, 0, transitions)
+	rep.Outcome("failed-setup/done")
+}
